@@ -104,10 +104,16 @@ func (c *conn) serve() error {
 	// responses (which are to be sent to the client)
 	// It prevents the requirement for a mutex on tags.
 
+	// handlers counts the handler goroutines still running, so that serve
+	// does not return (and the handler is not stopped) while a cancelled
+	// call is still inside the handler.
+	var handlers sync.WaitGroup
+
 	defer func() {
 		for _, active := range tags {
 			active.cancel()
 		}
+		handlers.Wait()
 	}()
 
 	// read loop
@@ -159,7 +165,9 @@ func (c *conn) serve() error {
 					cancel:  cancel,
 				}
 
+				handlers.Add(1)
 				go func(ctx context.Context, req *Fcall) {
+					defer handlers.Done()
 					var resp *Fcall
 					msg, err := c.handler.Handle(ctx, req.Message)
 					if err != nil {
